@@ -18,6 +18,7 @@ import (
 	"strconv"
 	"strings"
 	"sync"
+	"sync/atomic"
 	"time"
 
 	"verif/engines/vsim"
@@ -629,6 +630,8 @@ func explore(cfg config, hwopt func(*bondmachine.Config)) result {
 		return &worker{h0.clone(), ss}
 	}
 	var mu sync.Mutex
+	var cut atomic.Bool
+	hardEnd := time.Now().Add(cfg.Deadline)
 	var ex *xs.Explorer[pstate]
 	ex = &xs.Explorer[pstate]{
 		Key:       func(p pstate) string { return p.hk + "#" + p.sk },
@@ -637,6 +640,12 @@ func explore(cfg config, hwopt func(*bondmachine.Config)) result {
 		Deadline:  cfg.Deadline, // a configuration cut by it is reported as capped (exhaustive=false), never as a verdict
 		Workers:   4,
 		Succ: func(id int, st pstate) []xs.Edge[pstate] {
+			if cfg.Deadline > 0 && time.Now().After(hardEnd) {
+				// budget used up inside a batch (a batch of states × a large alphabet can take many minutes): the rest of
+				// the batch is not expanded and the configuration is reported as cut
+				cut.Store(true)
+				return nil
+			}
 			w := pool.Get().(*worker)
 			defer pool.Put(w)
 			var out []xs.Edge[pstate]
@@ -679,8 +688,8 @@ func explore(cfg config, hwopt func(*bondmachine.Config)) result {
 	init := pstate{hk: string(h0.initialState), sim: s0.snap(), sk: s0.encode()}
 	ex.Run(init)
 	res.states, res.transitions, res.depth = ex.States, ex.Transitions, ex.Depth
-	res.closed = ex.Closed()
-	res.capped = ex.CapHit != ""
+	res.closed = ex.Closed() && !cut.Load()
+	res.capped = ex.CapHit != "" || cut.Load()
 	return res
 }
 
